@@ -24,13 +24,13 @@ WORK = os.path.join(HERE, '.work')
 
 
 class Obligation:
-    def __init__(self, name, hyps, goal, kind='smt', meta=None, timeout=30, logic=None, expect=None):
+    def __init__(self, name, hyps, goal, kind='smt', meta=None, timeout=20, logic=None, expect=None):
         self.name = name
         self.hyps = list(hyps)
         self.goal = goal
         self.kind = kind          # 'smt' | 'decided' (engine-decided, no solver) | 'canary' (must be refuted)
         self.meta = dict(meta or {})
-        self.timeout = timeout
+        self.timeout = timeout * float(os.environ.get('VF_TIMEOUT_SCALE', '1'))
         self.logic = logic
         self.status = None        # 'discharged' | 'refuted' | 'undecided'
         self.model = None
@@ -47,6 +47,26 @@ class Obligation:
         txt = s.to_smt2()
         return txt
 
+    def has_uf(self):
+        return bool(_uf_apps(self.hyps + [self.goal]))
+
+    def smt2_abstract(self):
+        """UF applications replaced by fresh constants (functional consistency only for syntactically equal
+        applications).  Weaker hypotheses: unsat here implies unsat of the original; sat is only a candidate."""
+        apps = _uf_apps(self.hyps + [self.goal])
+        if not apps:
+            return None
+        sub = []
+        for a in apps:
+            nm = 'uf!' + hashlib.sha1(a.sexpr().encode()).hexdigest()[:10]
+            sub.append((a, z3.Const(nm, a.sort())))
+        s = z3.Solver()
+        # substitute outermost-first is not needed: z3.substitute replaces maximal matching subterms simultaneously
+        for h in self.hyps:
+            s.add(z3.substitute(h, *sub))
+        s.add(z3.Not(z3.substitute(self.goal, *sub)))
+        return s.to_smt2()
+
     def formula_hash(self):
         return hashlib.sha256(self.smt2().encode()).hexdigest()[:16]
 
@@ -57,6 +77,23 @@ class Obligation:
             g = str(self.goal)
         g = re.sub(r'\s+', ' ', g)
         return {'name': self.name, 'hyps': len(self.hyps), 'goal': g[:maxlen]}
+
+
+def _uf_apps(terms):
+    seen, out, stack = set(), [], [t for t in terms if isinstance(t, z3.ExprRef)]
+    while stack:
+        e = stack.pop()
+        i = e.get_id()
+        if i in seen:
+            continue
+        seen.add(i)
+        if z3.is_app(e):
+            if e.num_args() > 0 and e.decl().kind() == z3.Z3_OP_UNINTERPRETED:
+                out.append(e)
+            stack.extend(e.children())
+    # larger terms first so that nested applications are replaced as a whole
+    out.sort(key=lambda a: -len(a.sexpr()))
+    return out
 
 
 def decided(name, ok, detail='', meta=None, model=None):
@@ -198,33 +235,108 @@ def solve_smt2(txt, timeout=30, backends=('z3new', 'z3old', 'cvc5'), want_model=
     return last[0] if last[0] != 'timeout' else 'unknown', None, last[2], total, last[4]
 
 
+_POOL_POS = ['1', '2', '3', '1/2', '5/4', '7', '1/1000', '1000', '9/10', '10', '1/3', '13/5', '100', '1/100']
+_POOL_REAL = ['0', '1', '-1', '2', '-3', '1/2', '-5/4', '3', '4', '-7/2', '12', '5', '-1/1000', '1000', '1/3', '-2/7']
+
+
+def falsify(txt, inputs, attempts=8, timeout=6, seed=0):
+    """Numeric falsifier for an undecided obligation: fix the INPUT symbols to concrete rationals (derived symbols --
+    sqrt definitions, callee results -- stay with the solver) and ask again.  sat under extra constraints is sat."""
+    import random
+    rnd = random.Random(seed)
+    names = [n for n in inputs if re.search(r'\(declare-fun \|?' + re.escape(n) + r'\|? \(\) Real\)', txt)]
+    if not names:
+        return None
+    head, sep, tail = txt.rpartition('(check-sat)')
+    for k in range(attempts):
+        extra = []
+        for n in names:
+            kind = inputs[n]
+            pool = _POOL_POS if kind == 'pos' else _POOL_REAL
+            v = rnd.choice(pool)
+            if kind == 'nonneg' and rnd.random() < 0.2:
+                v = '0'
+            elif kind == 'nonneg':
+                v = rnd.choice(_POOL_POS)
+            fr = Fr(v)
+            lit = f'(/ {abs(fr.numerator)}.0 {fr.denominator}.0)'
+            if fr < 0:
+                lit = f'(- {lit})'
+            q = f'|{n}|' if not re.fullmatch(r'[A-Za-z_][A-Za-z0-9_]*', n) else n
+            extra.append(f'(assert (= {q} {lit}))')
+        t2 = head + '\n'.join(extra) + '\n(check-sat)' + tail
+        v, model, be, secs, raw = solve_smt2(t2, timeout=timeout, backends=('z3new',))
+        if v == 'sat':
+            return model, raw, k + 1
+    return None
+
+
 def discharge(obls, jobs=None, log=None):
     """Discharge all 'smt'/'canary' obligations in parallel."""
     jobs = jobs or max(2, min(16, (os.cpu_count() or 4)))
     todo = [o for o in obls if o.status is None]
 
-    texts = {}
+    texts, abstr = {}, {}
     for o in todo:  # z3's Python API is not thread-safe: serialise in the main thread
         try:
             texts[id(o)] = o.smt2()
+            abstr[id(o)] = o.smt2_abstract() if o.kind in ('smt', 'canary') else None
         except Exception as e:  # pragma: no cover
             texts[id(o)] = None
             o.status, o.detail = 'undecided', f'serialisation failed: {e}'
     todo = [o for o in todo if texts[id(o)] is not None]
+    if os.environ.get('VF_DUMP'):
+        os.makedirs(os.path.join(WORK, 'dump'), exist_ok=True)
+        for o in todo:
+            with open(os.path.join(WORK, 'dump', re.sub(r'[^A-Za-z0-9_.+-]+', '_', o.name)[-120:] + '.smt2'), 'w') as f:
+                f.write(texts[id(o)])
 
     def work(o):
         txt = texts[id(o)]
         backends = ('z3new', 'z3old', 'cvc5')
         if 'String' in txt or 'Seq' in txt:
             backends = ('z3new', 'cvc5')
-        v, model, be, secs, raw = solve_smt2(txt, timeout=o.timeout, backends=backends)
-        o.seconds, o.backend = secs, be
+        cand = None
+        ab = abstr.get(id(o))
+        spent = 0.0
+        if ab is not None and o.kind == 'canary':
+            v, model, be, secs, raw = solve_smt2(txt, timeout=o.timeout, backends=('z3new',), want_model=False)
+            if v not in ('sat', 'unsat'):
+                v, model, be, secs2, raw = solve_smt2(ab, timeout=o.timeout, backends=('z3new',), want_model=False)
+                secs += secs2
+                be = f'{be}/uf-abstracted'
+                if v == 'unsat':   # abstraction unsat => original unsat: contradictory preconditions
+                    pass
+            o.seconds, o.backend = secs, be
+            o.status = {'sat': 'refuted', 'unsat': 'discharged'}.get(v, 'undecided')
+            return o
+        if ab is not None:
+            # stage 1: pure-arithmetic abstraction (UF applications as fresh constants)
+            v, model, be, secs, raw = solve_smt2(ab, timeout=min(o.timeout, 10), backends=('z3new',))
+            spent += secs
+            if v == 'unsat':
+                o.status, o.backend, o.seconds = 'discharged', f'{be}/uf-abstracted', spent
+                return o
+            if v == 'sat':
+                cand = (model, raw)
+        v, model, be, secs, raw = solve_smt2(txt, timeout=o.timeout if cand is None else min(o.timeout, 5),
+                                             backends=backends if cand is None else ('z3new',))
+        o.seconds, o.backend = spent + secs, be
         if v == 'unsat':
             o.status = 'discharged'
         elif v == 'sat':
             o.status, o.model, o.detail = 'refuted', model, raw
         else:
             o.status, o.detail = 'undecided', raw
+            if cand is None and o.meta.get('inputs') and o.kind == 'smt':
+                f = falsify(ab or txt, o.meta['inputs'], seed=len(o.name))
+                if f is not None:
+                    cand = (f[0], f[1])
+            if cand is not None:
+                # counter-model of the abstraction only: a CANDIDATE, to be confirmed by replay on the real code
+                o.status, o.model, o.detail = 'refuted', cand[0], cand[1]
+                o.backend = (o.backend or 'z3new') + '/candidate'
+                o.meta['candidate'] = True
         return o
 
     with ThreadPoolExecutor(max_workers=jobs) as ex:
